@@ -42,7 +42,7 @@ CHECKS = {
     "C11": C(SM + "oracle: reflog listing parsed before and after every command (append-only, shift by k, HEAD@{0} = HEAD commit + kind), reset/reflog agreement",
              "Exploration over histories of commit/switch/switch -c/reset/rename/delete with hostile messages and all UTC offsets; the journal is compared entry-wise before/after each command."),
     "C12": C("property-based testing (rapid) with exhaustive coverage of the 105 quarter-hour UTC offsets: write/read round trip of identity, instant, offset, message (API layer and CLI layer with hand-made TZif files)",
-             "Every offset in [-12:00,+14:00] is exercised in every run; names, e-mails, instants and messages are random; stored lines are checked against the Git form by an independent parser and read back through log / cat-file -p / NewCommit."),
+             "Every offset in [-12:00,+14:00] is exercised in every run; names, e-mails, instants and messages are random; a CLI case is a short history of commits made under different offsets and read by one log process; stored lines are checked against the Git form by an independent parser and read back through log / cat-file -p / NewCommit."),
     "C13": C(SM + "oracle: three-way set comparison (index, working-tree bytes, ignore list) vs parsed status output; metamorphic relation for identical rewrites and touches",
              "Exploration over staging states x working trees (added/edited/identically rewritten/touched/deleted files, removed directories, depth <= 4) with and without .goitignore."),
     "C14": C(SM + "oracle: parent chain from an independent commit decoder vs parsed log output for drawn -n; metamorphic independence from index/working tree/other branches",
@@ -56,9 +56,9 @@ CHECKS = {
     "C18": C("grammar-based fuzzing of command lines (rapid) over all sub-commands x flags x argument classes against states reached by random prefixes; oracle: exit status in {0,1}, no panic text, confirmed time limit, byte-identical state for invalid-by-construction lines",
              "Exploration: thousands of generated command lines incl. missing/surplus arguments, malformed ids, regexp metacharacters, hostile branch names, against fresh / unconfigured / emptied / renamed / multi-branch states."),
     "C19": C("systematic mutation (every truncation, single-byte deletion, 6 substitutions per position, content-level and compressed-level, swapped object files) + random/structured byte strings (rapid) + native coverage-guided fuzzing (thorough) of every loader; oracle: no panic, bounded time and allocation, returned object hashes to the requested id",
-             "Totality exploration of GetObject, NewTree, NewCommit, NewIndex, NewHead, NewRefs, NewConfig (local and global), NewReflog/GetRecord/Show, ReadHash, ReadNullTerminatedString, plus the read-only commands on mutated repositories."),
+             "Totality exploration of GetObject, NewTree, NewCommit, NewIndex, NewHead, NewRefs, NewConfig (local and global), NewReflog/GetRecord/Show, ReadHash, ReadNullTerminatedString, plus reading and modifying commands on mutated repositories, and on repositories whose commit / tree content was damaged, re-stored under its own id and re-referenced (TestC19Rehash)."),
     "C20": C(SM + "oracle: independent parser of the documented config layout vs model after every write; effective identity in the next commit; refusal without side effects while unset",
-             "Exploration over sequences of local/global writes (3 sections x 3 keys, values with = [ ] # quotes non-ASCII) interleaved with commits, all 16 combinations of (local set?, global set?) x (name, e-mail)."),
+             "Exploration over sequences of local/global writes (sections and keys incl. brackets, #, ;; values with = [ ] # quotes non-ASCII, 64 KiB+; awkward identities) interleaved with commits, all 16 combinations of (local set?, global set?) x (name, e-mail)."),
 }
 
 _pending = "check not built yet in this session (planned; see DESIGN.md section 4)"
